@@ -75,4 +75,19 @@ PROPS = {
         "assumptions": COMMON_ASSUME + ["reading recorded in DESIGN.md 6.0: the parent probe (exists+metadata, never a mutation) of VfsPath::create_dir/create_file on the altroot's own root looks at the directory chain P consists of; it is not counted as reading outside P (LogBelow's second disjunct)"],
         "explanation": "theorems: AltrootFS::path appends (canonical P, q); no join argument whatsoever escapes; each altroot method IS the VfsPath operation on P++q (equal state transformers); the only paths that reach the underlying filesystem have P as component-wise prefix (for every invariant, for the call log, nested altroots); PhysicalFS::get_path appends canonical paths to the host root; raw non-canonical trait calls do escape (why canonicity is needed)",
     },
+    "C20": {
+        "module": "VfsModel.Props.C20",
+        "namespace": "Vfs.C20",
+        "required_theorems": ["faultGate_faithful", "faultFS_faithful", "pathops_faithful", "transfers_faithful", "walk_faithful", "composites_faithful",
+                              "altroot_faithful", "overlay_faithful", "stack_faithful", "ok_implies_no_fault", "fired_implies_io_error",
+                              "fired_implies_no_panic", "existsSwallowing_not_faithful"],
+        "streams": [("fault", [])],
+        "rule": "fault stream: 11 configurations (plain memory/physical, altroot, overlays with the fault wrapper around the upper layer, a lower layer, or all layers, altroot over overlay); per scenario 2-11 fault-free prefix operations, "
+                "then one operation (3 of 4 scenarios: create_dir_all, remove_dir_all, copy_file, move_file, copy_dir, move_dir, walk_dir, read_to_string) re-executed from scratch for EVERY k in 0..=number of underlying calls of the fault-free run, and once without fault; "
+                "a probe is distinct by (config, op, k, result, snapshot)",
+        "modelled_not_verified": ["the injected error is an IoError of kind Other; real I/O errors of other kinds behave like it only as far as no handler matches on them (the handlers match DirectoryExists, NotSupported, FileNotFound)",
+                                  "HashMap/HashSet iteration order decides which call is the k-th in operations that iterate a listing: for those probes only the property-level facts are compared with the model"],
+        "assumptions": COMMON_ASSUME,
+        "explanation": "theorems: compositional calculus FaithfulIO (a fault that fires during m comes out as the injected error: not ok, not a panic, not a swallowed kind) for every VfsPath operation over arbitrary faithful filesystems, altroot, overlay (any layers, any nesting), walk items; the pre-fix OverlayFS::exists is refuted. tie: fault-injecting wrapper on the real code for every call position",
+    },
 }
